@@ -471,3 +471,126 @@ def canon_world_ext(we: dict) -> dict:
             ds.append({"cfg": d["cfg"], "stage": d["stage"], "specs": specs})
         devs[new] = ds
     return {"world": cw, "ext": {"vmeta": vmeta, "quant": quant, "devs": devs}}
+
+
+# --------------------------------------------------------------------------- write sites of to_proto (C03_pure_sites)
+
+_MUTATORS = {
+    "append", "extend", "insert", "pop", "remove", "clear", "update", "setdefault", "add", "discard", "popitem",
+    "sort", "reverse", "__setitem__", "__delitem__", "__setattr__", "__delattr__", "appendleft", "popleft",
+    "replace_input_with", "replace_all_uses_with", "resize_inputs", "resize_outputs", "register_initializer",
+}
+_LOCAL_MAKERS = {"set", "dict", "list", "frozenset", "sorted", "tuple", "bytearray"}
+
+#: how an assignment target of serde.py's serialize_* functions maps to a write site of `Model/ScopeEff.lean`
+#: (object kind, attribute); a target that is not listed here is reported as ("unknown", <source text>)
+WRITE_SITE_OF_TARGET = {
+    "value.const_value.name": ("tensor", "name"),
+}
+
+
+def _root_name(e):
+    import ast
+
+    while True:
+        if isinstance(e, ast.Name):
+            return e.id
+        if isinstance(e, (ast.Attribute, ast.Subscript, ast.Starred)):
+            e = e.value
+        elif isinstance(e, ast.Call):
+            if isinstance(e.func, ast.Name) and e.func.id == "getattr" and e.args:
+                e = e.args[0]  # getattr(proto, field) is reached from the proto
+            else:
+                e = e.func
+        else:
+            return None
+
+
+def serde_write_sites(source: str | None = None) -> list:
+    """Every place where a function reachable from serde.py's `serialize*` / `to_proto` entry points (call-graph
+    closure over the module's own functions) assigns to, deletes from, or calls a mutating container method on an
+    object that is neither a protobuf message (a parameter annotated with an `onnx.` type, `onnx.X()` or anything
+    reached from one) nor a container created inside the function.  Returns [(function, source text of the target,
+    (kind, attribute))], sorted.  The scan reads the source of the IMPORTED `onnx_ir.serde`."""
+    import ast
+    import inspect
+
+    if source is None:
+        from onnx_ir import serde
+
+        source = inspect.getsource(serde)
+    tree = ast.parse(source)
+    funcs = {f.name: f for f in tree.body if isinstance(f, (ast.FunctionDef, ast.AsyncFunctionDef))}
+    todo = [n for n in funcs if n.startswith("serialize") or n == "to_proto"]
+    reach: set = set()
+    while todo:
+        n = todo.pop()
+        if n in reach:
+            continue
+        reach.add(n)
+        for c in ast.walk(funcs[n]):
+            if isinstance(c, ast.Call) and isinstance(c.func, ast.Name) and c.func.id in funcs:
+                todo.append(c.func.id)
+            elif isinstance(c, ast.Name) and c.id in funcs and c.id not in reach:
+                todo.append(c.id)  # a function passed as a value (dispatch tables)
+    out = []
+    for name in sorted(reach):
+        fn = funcs[name]
+        proto: set = set()
+        local: set = set()
+        args = fn.args
+        for a in args.posonlyargs + args.args + args.kwonlyargs:
+            if a.annotation is not None and "onnx." in ast.unparse(a.annotation):
+                proto.add(a.arg)
+        changed = True
+        while changed:
+            changed = False
+            for st in ast.walk(fn):
+                pairs = []
+                if isinstance(st, ast.Assign) and len(st.targets) == 1 and isinstance(st.targets[0], ast.Name):
+                    pairs.append((st.targets[0].id, st.value))
+                elif isinstance(st, ast.AnnAssign) and isinstance(st.target, ast.Name) and st.value is not None:
+                    pairs.append((st.target.id, st.value))
+                elif isinstance(st, (ast.For, ast.comprehension)) and isinstance(st.target, ast.Name):
+                    pairs.append((st.target.id, st.iter))
+                elif isinstance(st, ast.NamedExpr) and isinstance(st.target, ast.Name):
+                    pairs.append((st.target.id, st.value))
+                for var, val in pairs:
+                    r = _root_name(val)
+                    if (r in proto or r == "onnx") and var not in proto:
+                        proto.add(var)
+                        changed = True
+                    is_local = isinstance(val, (ast.List, ast.Dict, ast.Set, ast.ListComp, ast.DictComp, ast.SetComp,
+                                                ast.Constant, ast.JoinedStr, ast.Tuple)) or (
+                        isinstance(val, ast.Call) and isinstance(val.func, ast.Name) and val.func.id in _LOCAL_MAKERS)
+                    if is_local and var not in local:
+                        local.add(var)
+                        changed = True
+        safe = proto | local
+        for st in ast.walk(fn):
+            targets = []
+            if isinstance(st, ast.Assign):
+                targets = list(st.targets)
+            elif isinstance(st, (ast.AugAssign, ast.AnnAssign)):
+                targets = [st.target]
+            elif isinstance(st, ast.Delete):
+                targets = list(st.targets)
+            elif isinstance(st, ast.Call) and isinstance(st.func, ast.Attribute) and st.func.attr in _MUTATORS:
+                r = _root_name(st.func.value)
+                if r is not None and r not in safe:
+                    out.append((name, ast.unparse(st.func) + "()"))
+                continue
+            elif isinstance(st, ast.Call) and isinstance(st.func, ast.Name) and st.func.id in ("setattr", "delattr") and st.args:
+                r = _root_name(st.args[0])
+                if r is not None and r not in safe:
+                    out.append((name, ast.unparse(st)))
+                continue
+            flat = []
+            for t in targets:
+                flat.extend(t.elts if isinstance(t, (ast.Tuple, ast.List)) else [t])
+            for t in flat:
+                if isinstance(t, (ast.Attribute, ast.Subscript)):
+                    r = _root_name(t)
+                    if r is not None and r not in safe:
+                        out.append((name, ast.unparse(t)))
+    return sorted((f, t, WRITE_SITE_OF_TARGET.get(t, ("unknown", t))) for f, t in set(out))
